@@ -161,3 +161,4 @@ Definition wf_collector (c : collector) : bool := wf_dsets (c_abs c) && wf_dsets
 Definition m_ensure_path_vars : str := [101;110;115;117;114;101;95;112;97;116;104;95;118;97;114;115].
 Definition m_typing_imports_render : str :=
   [116;121;112;105;110;103;95;105;109;112;111;114;116;115;95;114;101;110;100;101;114].
+Definition m_show_diffs_fs : str := [115;104;111;119;95;100;105;102;102;115;95;102;115].   (* "show_diffs_fs" *)
